@@ -1,6 +1,6 @@
 HOOK_COMMITS = []
 _PENDING = "check not built yet in this round (planned, see DESIGN.md section 9); not a statement that the technique cannot apply"
-NOT_APPLICABLE = {p: _PENDING for p in ["C01","C02","C03","C04","C05","C06","C07","C08","C09","C10","C11","C12","C16","C18","C19","C20"]}
+NOT_APPLICABLE = {p: _PENDING for p in ["C01","C02","C03","C04","C05","C06","C07","C08","C09","C10","C11","C12","C16","C18","C19"]}
 TEXT = {
  "C17": {
   "text": "Lean mirror of integer.h / dyadic_rational.h / rational.h; theorems for every modulus m>=2 and every operand state that each "
@@ -42,5 +42,16 @@ TEXT = {
   "design_ref": "5.13",
   "note": "union/status/NF-of-result theorems not yet proved (kept as correspondence); algebraic end points enter the model as order-isomorphic dyadic surrogates chosen by the harness",
   "technique": "Lean 4 proof over mirror model + exhaustive/differential correspondence harness",
+ },
+ "C20": {
+  "text": "Every answer of the C hash set, heap and vector on every generated history (return values of insert/move/remove/contains/"
+          "intersect/insert_vector, sizes, pop/peek results, enumeration after close, final contents) is compared with an abstract "
+          "reference (duplicate-free list as set, list as bag with max-extraction) that is PROVED in Lean to be the Finset/Multiset "
+          "semantics for all states; the slot-exact mirror of the open-addressing table (probing, backward-shift deletion, growth) and "
+          "of the binary heap is additionally compared slot by slot. Mirror-level theorems so far: probe postcondition, soundness of "
+          "contains, enumeration length; the full probe-chain refinement proof of the mirror is not done (correspondence only).",
+  "design_ref": "5.20",
+  "note": "proof covers the reference semantics and basic mirror lemmas; the refinement mirror -> reference is checked per history (20k histories per quick run with forced collisions, wrap-around, growth), not proved; elements abstracted to (identity, reported hash)",
+  "technique": "Lean 4 proved reference semantics + slot-exact mirror model + history-based differential correspondence",
  },
 }
